@@ -24,6 +24,8 @@ var checks = map[string]func(*lib.Run){
 	"C09": lib.CheckC09,
 	"C10": lib.CheckC10,
 	"C17": lib.CheckC17,
+	"C18": lib.CheckC18,
+	"C19": lib.CheckC19,
 	"C20": lib.CheckC20,
 }
 
